@@ -109,5 +109,18 @@ CHECKS["C15"] = {
             "first-wins semantics. Four defects found here were repaired by fix: commits (see known_findings.json).",
     "technique": T,
 }
+CHECKS["C09"] = {
+    "level": "proof",
+    "text": "Kernel-checked per model: for Learner1D, SequenceLearner, AverageLearner, DataSaver over any learner and "
+            "BalancingLearner over lawful children, ask(n, False) returns the very state it was given (hence data, pending, losses "
+            "and all later answers are unchanged) and the points of ask(n, True), whose state is tell_pending folded over them. "
+            "LearnerND / IntegratorLearner (utils.restore snapshot) and Learner2D have no Lean model of the roll-back: for them the "
+            "deciding part is the twin oracle (listed as partial). Search: twin learners over 17 kinds, one receiving extra "
+            "non-committing asks twice; every observable and every later answer compared exactly.",
+    "design_ref": "DESIGN.md section 6 C09",
+    "note": "Trusted: Lean kernel, standard axioms; the models are tied to the code by the lock-step runs of C01/C02/C15/C16/C17/C18; "
+            "utils.restore (deepcopy of __dict__) is an exact snapshot. Two defects found here were repaired by fix: commits.",
+    "technique": T,
+}
 _PENDING = "machinery for this property is not built yet in this commit (work in progress; see DESIGN.md section 9)"
 NOT_APPLICABLE = {f"C{i:02d}": _PENDING for i in range(1, 21) if f"C{i:02d}" not in CHECKS}
